@@ -177,10 +177,60 @@ def write_replay(prop, f, res, idx):
     path = os.path.join(d, '%s_%02d.json' % (ts, idx))
     json.dump({'property': prop, 'failed_obligation': f['obligation'], 'kind': f['kind'], 'function': f['fn'], 'module': f['module'],
                'source': f['src'], 'clause': f['clause'], 'verifier_message': f['message'], 'verifier_output': f['rendered'],
-               'checker_cmd': res['cmd'], 'failing_input': None,
+               'checker_cmd': res.get('cmd', ''), 'failing_input': None,
                'note': 'Verus gives no counterexample; no failing input was found for this obligation. Re-run: ./check %s' % prop},
               open(path, 'w'), indent=1)
     return path
+
+class UnitRun:
+    pass
+
+def run_unit(prop, unit, pcfg, cache, usize=8, seed=None, want_canary=True):
+    """extract + verify one unit for one property; returns a UnitRun (raises Undecided/ExtractError)"""
+    from concurrent.futures import ThreadPoolExecutor
+    u = UnitRun()
+    ex = Extractor(REPO, SPEC, unit, usize_bytes=usize)
+    gen = ex.build()
+    unitcfg = ex.unit
+    tag = 'u_%s%s' % (unit, '' if usize == 8 else '_usize%d' % usize)
+    gpath = os.path.join(GEN, tag + '.rs')
+    open(gpath, 'w').write(gen.text)
+    mods = modules_for(prop, gen, unitcfg, pcfg)
+    if not mods: raise Undecided('no module of unit %s carries an obligation of %s' % (unit, prop))
+    rlimit = pcfg.get('rlimit', 30)
+    genc = cpath = None
+    if want_canary:
+        genc = Extractor(REPO, SPEC, unit, usize_bytes=usize, canary=True).build()
+        cpath = os.path.join(GEN, tag + '_canary.rs')
+        open(cpath, 'w').write(genc.text)
+    with ThreadPoolExecutor(max_workers=2) as tp:
+        f1 = tp.submit(vrun.run, gpath, mods, rlimit, 16 if not want_canary else 10, seed, cache)
+        f2 = tp.submit(vrun.run, cpath, mods, rlimit, 6, seed, cache) if want_canary else None
+        res = f1.result()
+        cres = f2.result() if f2 else None
+    if not res['have_results']:
+        fe = [d for d in res['diags']]
+        msg = fe[0]['rendered'] if fe else res['raw_err_tail']
+        raise Undecided('Verus produced no verification result for unit %s (front-end error or tool failure):\n%s' % (unit, msg))
+    fails, undec = map_failures(res, gen, unitcfg)
+    fe = [x for x in undec if x['kind'] == 'front-end']
+    if fe:
+        raise Undecided('Verus rejected unit %s before/while verifying (unsupported construct or type error): %s\n%s' % (unit, fe[0]['message'], fe[0]['rendered']))
+    exp_in, failed_canaries = set(), set()
+    if want_canary:
+        cf, cu = map_failures(cres, genc, unitcfg) if cres['have_results'] else ([], [])
+        midx = module_index(genc.text)
+        for m in re.finditer(r'/\*#(CANARY:[^*]+)\*/', genc.text):
+            line = genc.text.count('\n', 0, m.start()) + 1
+            if module_at_line(midx, line) in mods: exp_in.add(m.group(1))
+        failed_canaries = set(f['canary'] for f in cf if f.get('canary'))
+        passed = sorted(exp_in - failed_canaries)
+        if passed:
+            raise Undecided('vacuity guard: assert(false) was PROVED at %s -- a precondition or axiom set is contradictory' % passed)
+    u.unit, u.gen, u.unitcfg, u.mods, u.res, u.fails, u.undec = unit, gen, unitcfg, mods, res, fails, undec
+    u.canaries, u.canaries_failed = exp_in, exp_in & failed_canaries
+    u.obs = obligations_for(prop, gen, unitcfg, mods)
+    return u
 
 def main():
     ap = argparse.ArgumentParser()
@@ -189,6 +239,7 @@ def main():
     ap.add_argument('--replay')
     ap.add_argument('--no-cache', action='store_true')
     ap.add_argument('--keep', action='store_true')
+    ap.add_argument('--no-evidence', action='store_true', help='self-test on a scratch copy: do not overwrite evidence/')
     a = ap.parse_args()
     if a.replay:
         print(open(a.replay).read())
@@ -200,52 +251,41 @@ def main():
     if prop not in props['property']:
         print('unknown or unclaimed property %s' % prop); return 2
     pcfg = props['property'][prop]
-    unit = pcfg.get('unit', 'core')
+    units = pcfg.get('units') or [pcfg.get('unit', 'core')]
     os.makedirs(GEN, exist_ok=True); os.makedirs(EVID, exist_ok=True)
     tier = a.tier if a.tier in ('quick', 'thorough') else 'quick'
     cache = None if (a.no_cache or tier == 'thorough') else os.path.join(GEN, 'cache')
+    runs = []
+    extra = {}
     try:
-        ex = Extractor(REPO, SPEC, unit)
-        gen = ex.build()
-        unitcfg = ex.unit
-        gpath = os.path.join(GEN, 'u_%s.rs' % unit)
-        open(gpath, 'w').write(gen.text)
-        mods = modules_for(prop, gen, unitcfg, pcfg)
-        if not mods: raise Undecided('no module carries an obligation of %s' % prop)
-        rlimit = pcfg.get('rlimit', 30)
-        res = vrun.run(gpath, mods, rlimit=rlimit, cache_dir=cache)
-        if not res['have_results']:
-            fe = [d for d in res['diags']]
-            msg = fe[0]['rendered'] if fe else res['raw_err_tail']
-            raise Undecided('Verus produced no verification result (front-end error or tool failure):\n' + msg)
-        fails, undec = map_failures(res, gen, unitcfg)
-        fe = [u for u in undec if u['kind'] == 'front-end']
-        if fe:
-            raise Undecided('Verus rejected the unit before/while verifying (unsupported construct or type error): %s\n%s' % (fe[0]['message'], fe[0]['rendered']))
-        # canary pass: every function with a precondition, and every module's axiom set, must fail assert(false)
-        exc = Extractor(REPO, SPEC, unit, canary=True)
-        genc = exc.build()
-        cpath = os.path.join(GEN, 'u_%s_canary.rs' % unit)
-        open(cpath, 'w').write(genc.text)
-        cres = vrun.run(cpath, mods, rlimit=rlimit, cache_dir=cache)
-        cf, cu = map_failures(cres, genc, unitcfg) if cres['have_results'] else ([], [])
-        expected_canaries = set(re.findall(r'/\*#(CANARY:[^*]+)\*/', genc.text))
-        midx = module_index(genc.text)
-        # only the canaries inside verified modules count
-        exp_in = set()
-        for m in re.finditer(r'/\*#(CANARY:[^*]+)\*/', genc.text):
-            line = genc.text.count('\n', 0, m.start()) + 1
-            if module_at_line(midx, line) in mods: exp_in.add(m.group(1))
-        failed_canaries = set(f['canary'] for f in cf if f.get('canary'))
-        passed_canaries = sorted(exp_in - failed_canaries)
-        if passed_canaries:
-            raise Undecided('vacuity guard: assert(false) was PROVED at %s -- a precondition or axiom set is contradictory' % passed_canaries)
+        for unit in units:
+            runs.append(run_unit(prop, unit, pcfg, cache))
+        if tier == 'thorough':
+            import thorough
+            extra = thorough.run(prop, pcfg, units, runs, seed, run_unit, Undecided)
     except (ExtractError, Undecided, extract.RsxError) as e:
         print('UNDECIDED property=%s: %s' % (prop, e))
         return 2
-    obs = obligations_for(prop, gen, unitcfg, mods)
+    obs, fails, undec = [], [], []
+    for u in runs:
+        for o in u.obs:
+            if o not in obs: obs.append(o)
+        for f in u.fails:
+            if not any(g['obligation'] == f['obligation'] and g['fn'] == f['fn'] and g['line'] == f['line'] and g.get('unit') == u.unit for g in fails):
+                f['unit'] = u.unit; f['cmd'] = u.res['cmd']; fails.append(f)
+        undec += [x for x in u.undec if x['module'] in u.mods or x['module'] is None]
+    for f in extra.get('fails', []):
+        fails.append(f)
     relevant = [f for f in fails if prop in f['props']]
-    rel_undec = [u for u in undec if u['module'] in mods or u['module'] is None]
+    # the same obligation reported by two units (core and std share modules) is one violation
+    seen = set(); rel2 = []
+    for f in relevant:
+        k = (f['obligation'], f['line'] if f.get('unit') == relevant[0].get('unit') else f['obligation'])
+        key = (f['obligation'], f['message'], f['fn'])
+        if key in seen: continue
+        seen.add(key); rel2.append(f)
+    relevant = rel2
+    rel_undec = undec + extra.get('undecided', [])
     known = [k for k in load_known() if k.get('kind') == 'known' and k.get('property') == prop]
     viol, knownhits = [], []
     for f in relevant:
@@ -255,81 +295,92 @@ def main():
     failed_obs = set(f['obligation'] for f in relevant)
     for f in relevant:
         if f['obligation'] not in obs: obs.append(f['obligation'])
+    obs += extra.get('obligations', [])
     discharged = [o for o in obs if o not in failed_obs]
     for f, k in knownhits:
         print('KNOWN-FINDING: property=%s %s (%s)' % (prop, f['obligation'], k.get('what', '')))
     rc = 0
     replay_paths = []
     for i, f in enumerate(viol):
-        p = write_replay(prop, f, res, i)
+        p = write_replay(prop, f, {'cmd': f.get('cmd', '')}, i)
         replay_paths.append(p)
-        print('VIOLATION property=%s replay=%s obligation=%s function=%s %s no-failing-input-found' % (
-            prop, p, f['obligation'], f['fn'], f['src'] or ''))
+        tail = 'no-failing-input-found'
+        print('VIOLATION property=%s replay=%s obligation=%s function=%s %s %s' % (
+            prop, p, f['obligation'], f['fn'], f['src'] or '', tail))
         rc = 1
     if rc == 0 and rel_undec:
-        for u in rel_undec[:5]:
-            print('UNDECIDED property=%s: %s in %s (%s)' % (prop, u['message'], u['fn'] or u['module'], u['kind']))
+        for x in rel_undec[:5]:
+            print('UNDECIDED property=%s: %s in %s (%s)' % (prop, x['message'], x.get('fn') or x.get('module'), x['kind']))
         rc = 2
     wall = time.time() - t0
     # ---------------- evidence
-    import collections
+    gen0 = runs[0].gen
+    allclauses = {}
+    for u in runs: allclauses.update(u.gen.clauses)
     samples = []
-    for l in [o for o in obs if not o.startswith(('safety:', 'termination:', 'proof:')) and '@' not in o][:6]:
-        c = gen.clauses.get(l)
+    for l in [o for o in obs if not o.startswith(('safety:', 'termination:', 'proof:', 'kani:', 'bits32:')) and '@' not in o][:6]:
+        c = allclauses.get(l)
         if c: samples.append({'obligation': l, 'function': c['fn'], 'kind': c['kind'], 'clause': c['text'], 'own': c['own'], 'dep': c['dep']})
     for o in [o for o in obs if o.startswith('safety:')][:2]:
         samples.append({'obligation': o, 'kind': 'safety: no overflow/underflow, division by zero, bad shift, out-of-bounds index, failed unwrap/expect in this function, for all inputs'})
-    fns_under_contract = sorted(set(f.path for f in gen.fns if f.module in mods and f.labels and any(
-        prop in gen.clauses[l]['own'] or prop in gen.clauses[l]['dep'] for l in f.labels)))
-    trusted = trusted_base(gen, unit, props, pcfg)
-    smt_ms = res.get('smt_ms')
+    for o in [o for o in obs if o.startswith('termination:')][:2]:
+        samples.append({'obligation': o, 'kind': 'termination: every loop of this function has a decreases measure that Verus checks'})
+    fns_under_contract = sorted(set('%s::%s' % (f.module, f.path) for u in runs for f in u.gen.fns if f.module in u.mods and f.labels and any(
+        prop in u.gen.clauses[l]['own'] or prop in u.gen.clauses[l]['dep'] for l in f.labels)))
+    trusted = trusted_base(runs, props, pcfg)
     ev = {
         'property_id': prop, 'tier': tier, 'seed': seed, 'level': pcfg.get('level', 'proof'),
         'coverage': {
             'obligations': len(obs), 'discharged': len(discharged),
-            'checker_cmd': res['cmd'] + '  (cwd=%s; input regenerated from %s/src on this run)' % (GEN, REPO),
+            'checker_cmd': ' ;; '.join(u.res['cmd'] for u in runs) + '  (cwd=%s; inputs regenerated from %s/src on this run)' % (GEN, REPO),
             'trusted_base': trusted,
             'samples': samples,
             'exhaustive': False,
-            'back_end': 'Verus %s (Z3), all obligations generated from the extracted source of this run' % vrun.version(),
-            'unit': unit, 'modules_verified': mods,
+            'back_end': 'Verus %s (Z3); every obligation is generated from the source extracted on this run' % vrun.version(),
+            'units': [{'unit': u.unit, 'modules_verified': u.mods, 'verus_functions_verified': u.res.get('verified'), 'verus_errors': u.res.get('errors'),
+                       'smt_time_ms': u.res.get('smt_ms'), 'verus_total_ms': u.res.get('total_ms'), 'verus_cache': u.res.get('cache'),
+                       'canaries_injected': len(u.canaries), 'canaries_failed_as_required': len(u.canaries_failed),
+                       'slowest_functions_ms': sorted(((k.split('::', 1)[-1], v['ms']) for k, v in u.res.get('func_times', {}).items()), key=lambda x: -x[1])[:5],
+                       'extraction': {'rules_applied': u.gen.rules_used, 'dropped': u.gen.dropped}} for u in runs],
             'functions_under_contract': fns_under_contract,
-            'labelled_clauses': len([o for o in obs if not o.startswith(('safety:', 'termination:', 'proof:'))]),
+            'labelled_clauses': len([o for o in obs if not o.startswith(('safety:', 'termination:', 'proof:', 'kani:', 'bits32:'))]),
             'safety_obligations': len([o for o in obs if o.startswith('safety:')]),
             'termination_obligations': len([o for o in obs if o.startswith('termination:')]),
-            'verus_functions_verified': res.get('verified'), 'verus_errors': res.get('errors'),
-            'smt_time_ms': smt_ms, 'verus_total_ms': res.get('total_ms'), 'verus_cache': res.get('cache'),
-            'canaries_injected': len(exp_in), 'canaries_failed_as_required': len(exp_in & failed_canaries),
+            'smt_time_ms': sum((u.res.get('smt_ms') or 0) for u in runs),
             'failed_obligations': [{'obligation': f['obligation'], 'function': f['fn'], 'source': f['src'], 'message': f['message']} for f in relevant],
             'known_findings_matched': [f['obligation'] for f, k in knownhits],
-            'undecided': [{'message': u['message'], 'where': u['fn'] or u['module']} for u in rel_undec],
-            'extraction': {'rules_applied': gen.rules_used, 'dropped': gen.dropped},
+            'undecided': [{'message': x['message'], 'where': x.get('fn') or x.get('module')} for x in rel_undec],
             'not_covered': pcfg.get('not_covered', []),
             'replays': replay_paths,
-            'slowest_functions_ms': sorted(((k.split('::', 1)[-1], v['ms']) for k, v in res.get('func_times', {}).items()), key=lambda x: -x[1])[:5],
+            'thorough': extra.get('report', {}),
         },
         'assumptions': trusted,
         'wall_s': round(wall, 2),
         'violations': len(viol),
     }
-    json.dump(ev, open(os.path.join(EVID, '%s.json' % prop), 'w'), indent=1)
+    if not a.no_evidence:
+        json.dump(ev, open(os.path.join(EVID, '%s.json' % prop), 'w'), indent=1)
     if rc == 0:
         print('OK property=%s obligations=%d discharged=%d verus_verified=%s smt_ms=%s wall_s=%.1f' % (
-            prop, len(obs), len(discharged), res.get('verified'), smt_ms, wall))
+            prop, len(obs), len(discharged), '+'.join(str(u.res.get('verified')) for u in runs), ev['coverage']['smt_time_ms'], wall))
     return rc
 
-def trusted_base(gen, unit, props, pcfg):
+def trusted_base(runs, props, pcfg):
     A = props.get('assumption', {})
     out = []
     for a in pcfg.get('assumes', []):
         out.append('%s: %s' % (a, A.get(a, '')))
     R = props.get('rule', {})
-    for r in sorted(gen.rules_used):
-        out.append('extraction rule %s (x%d): %s' % (r, gen.rules_used[r], R.get(r, '')))
-    kinds = {}
-    for line, k in gen.trusted_scan:
-        kinds[k] = kinds.get(k, 0) + 1
-    out.append('mechanical scan of the generated unit: ' + ', '.join('%s x%d' % (k.strip('( '), v) for k, v in sorted(kinds.items())))
+    used = {}
+    for u in runs:
+        for r, n in u.gen.rules_used.items(): used[r] = max(used.get(r, 0), n)
+    for r in sorted(used):
+        out.append('extraction rule %s (x%d): %s' % (r, used[r], R.get(r, '')))
+    for u in runs:
+        kinds = {}
+        for line, k in u.gen.trusted_scan:
+            kinds[k] = kinds.get(k, 0) + 1
+        out.append('mechanical scan of generated unit %s: ' % u.unit + ', '.join('%s x%d' % (k.strip('( '), v) for k, v in sorted(kinds.items())))
     return out
 
 if __name__ == '__main__':
